@@ -1024,6 +1024,65 @@ def tables_group():
         g.report["levelStore"] = "ok"
     except Exception as e:  # noqa: BLE001
         g.report["levelStore"] = "FAILED: %r" % (e,)
+    # C13: keyword -> expression tables of run_bldfm_single (local names inlined)
+    try:
+        itree = ast.parse(open(os.path.join(REPO_SRC, "interface.py")).read())
+        fn = [n for n in ast.walk(itree) if isinstance(n, ast.FunctionDef) and n.name == "run_bldfm_single"][0]
+        env = {}
+
+        class Inl(ast.NodeTransformer):
+            def visit_Name(self, node):
+                if isinstance(node.ctx, ast.Load) and node.id in env:
+                    return env[node.id]
+                return node
+
+        def inl(node):
+            import copy
+            return ast.unparse(Inl().visit(copy.deepcopy(node)))
+        tables = {}
+        params = [a.arg for a in fn.args.args]
+
+        def walk(body, path):
+            for st in body:
+                if isinstance(st, ast.Assign) and len(st.targets) == 1:
+                    t = st.targets[0]
+                    if isinstance(st.value, ast.Call) and ast.unparse(st.value.func) in (
+                            "vertical_profiles", "ideal_source", "steady_state_transport_solver"):
+                        call = st.value
+                        name = ast.unparse(call.func) + ("@" + "/".join(path) if path else "")
+                        tables[name] = [("%d" % i, inl(a)) for i, a in enumerate(call.args)] + [(kw.arg, inl(kw.value)) for kw in call.keywords]
+                        continue
+                    if isinstance(t, ast.Name) and not path and t.id not in params:
+                        import copy
+                        env[t.id] = ast.parse(inl(st.value), mode="eval").body
+                    elif isinstance(t, ast.Tuple) and not path and isinstance(st.value, ast.Call):
+                        for k, e in enumerate(t.elts):
+                            if isinstance(e, ast.Name):
+                                env[e.id] = ast.parse("%s[%d]" % (inl(st.value), k), mode="eval").body
+                    elif isinstance(t, ast.Name) and path:
+                        tables.setdefault("assign@" + "/".join(path), []).append((t.id, inl(st.value)))
+                elif isinstance(st, ast.If):
+                    test = inl(st.test)
+                    walk(st.body, path + ["if " + test])
+                    walk(st.orelse, path + ["else " + test])
+                elif isinstance(st, ast.Return) and isinstance(st.value, ast.Dict):
+                    tables["return"] = [(ast.literal_eval(k), inl(v)) for k, v in zip(st.value.keys, st.value.values)]
+        walk(fn.body, [])
+
+        def lean_pairs(ps):
+            return "[" + ", ".join('("%s", "%s")' % (a.replace('"', "'"), b.replace('"', "'")) for a, b in ps) + "]"
+        for name in sorted(tables):
+            ident = "single_" + "".join(ch if ch.isalnum() else "_" for ch in name)
+            lines.append("def %s : List (String × String) := %s" % (ident, lean_pairs(tables[name])))
+        g.report["singleTables"] = "ok"
+        g.report["_singleTables"] = {k: v for k, v in tables.items()}
+        # load_config = parse_config_dict(yaml.safe_load(f))
+        lc = [n for n in ast.walk(ast.parse(open(os.path.join(REPO_SRC, "config_parser.py")).read()))
+              if isinstance(n, ast.FunctionDef) and n.name == "load_config"][0]
+        body = [ast.unparse(x).replace("\n", " ") for x in lc.body if not (isinstance(x, ast.Expr) and isinstance(x.value, ast.Constant))]
+        lines.append("def loadConfigBody : List String := %s" % lean_strs(body))
+    except Exception as e:  # noqa: BLE001
+        g.report["singleTables"] = "FAILED: %r" % (e,)
     # C15: cache key fields, halo resolution at the two call sites, write protocol, guarded load
     try:
         ctree = ast.parse(open(os.path.join(REPO_SRC, "cache.py")).read())
